@@ -770,3 +770,9 @@ X6_THEOREMS = ["Src." + t for t in [
     "ELFFile.__init___translated", "ELFFile.__init___eq_model", "ELFFile.interpreter_translated", "ELFFile.interpreter_eq_model",
     "parse_idx", "ELFFile.init_interpreter_eq_model"]]
 PROP = with_src(PROP, share=12, functions=X6_FUNCTIONS, module=X6_MODULES, theorems=X6_THEOREMS)
+
+# x10: `_glibc_version_string_confstr` — what the library does with the answer of `os.confstr("CS_GNU_LIBC_VERSION")`
+# (None, wrong number of fields -> None; else the second field), against Plat.glibcVersionStringConfstr
+PROP = with_src(PROP, share=12, functions=["_glibc_version_string_confstr"], module=["PkgProofs.Props.Src.PlatConfstr"],
+                theorems=["Src._glibc_version_string_confstr_translated", "Src._glibc_version_string_confstr_eq_model",
+                          "Src.split_eq_splitWs"])
